@@ -1,8 +1,8 @@
 SPECIFICATION Spec
 CONSTANTS
   FIXED = TRUE
-  MAXN = 3
-  FAULTS = 0
+  MAXN = 4
+  FAULTS = 1
 INVARIANTS NormalInOrder RefsAreOwners NothingLiveAfterFree HeadersAtBoundaries NormalIsBasic DeferredOrdered DeferOnlyAtEnd DecoderOnlyForNormal FakeWasExtracted DeferWasExtracted FakeAtRightPlace FakeOnlyAtEndUnderEOF NeverFakeUnderPlain EofMeansAllDone
 PROPERTIES EofSticky
 CHECK_DEADLOCK FALSE
